@@ -203,15 +203,56 @@ def documents(ctx):
         yield f"corrupt{i}", bytes(data)
 
 
-async def load_file(ctx, workdir: str, name: str, content: bytes, via_gateway: bool) -> None:
+FILE_NAMES = ["p.json", "p.json.gz", "p.gz", "p.bz2", "p.xz", "p.zip", "p.yaml", "p.pickle", "p.bak", "p", "p.json.bak",
+              "p.JSON", "p.toml", "p.db", "p.txt", "p.xml", "p.msgpack", "p.json.tmp", "p.json~", ".p.json.swp", "p.jsonl"]
+
+
+def container_documents(ctx):
+    """The same documents inside the containers a loader might learn to open by file name or magic number (gzip, bz2,
+    xz, zlib, zip, pickle): complete, cut at many positions, with flipped bytes.  For the loader as it stands they are
+    just undecodable bytes; a loader that opens them must still map every failure to the persistence read error."""
+    import bz2
+    import gzip
+    import io
+    import lzma
+    import pickle
+    import zipfile
+    import zlib
+
+    rng = ctx.rng
+    good = json.dumps(NATIVE, indent=2).encode()
+    packed = {"gzip": gzip.compress(good, mtime=0), "bz2": bz2.compress(good), "xz": lzma.compress(good),
+              "zlib": zlib.compress(good), "pickle": pickle.dumps(NATIVE), "gzip-of-garbage": gzip.compress(b"{\"1\": [", mtime=0),
+              "gzip-empty": gzip.compress(b"", mtime=0)}
+    buffer = io.BytesIO()
+    with zipfile.ZipFile(buffer, "w") as archive:
+        archive.writestr("p.json", good)
+    packed["zip"] = buffer.getvalue()
+    for kind, data in packed.items():
+        yield f"{kind}:complete", data
+        cuts = sorted({1, 2, 3, 4, 9, 10, 11, 18, len(data) // 2, len(data) - 9, len(data) - 8, len(data) - 4, len(data) - 1}
+                      | {rng.randrange(1, len(data)) for _ in range(ctx.pick(6, 200))})
+        for cut in cuts:
+            if 0 < cut < len(data):
+                yield f"{kind}:cut{cut}", data[:cut]
+        for i in range(ctx.pick(12, 400)):
+            damaged = bytearray(data)
+            damaged[rng.randrange(len(damaged))] ^= rng.choice([1, 0x80, 0xFF])
+            yield f"{kind}:flip{i}", bytes(damaged)
+        yield f"{kind}:doubled", data + data
+        yield f"{kind}:trailing-garbage", data + b"trailing"
+
+
+async def load_file(ctx, workdir: str, name: str, content: bytes, via_gateway: bool, file_name: str = "p.json",
+                    explicit_path: bool = False) -> None:
     from aiomysensors.exceptions import PersistenceReadError
     from aiomysensors.persistence import Persistence
 
-    path = os.path.join(workdir, "p.json")
+    path = os.path.join(workdir, file_name)
     with open(path, "wb") as fil:
         fil.write(content)
     case = {"name": name, "content_hex": content.hex() if len(content) < 4000 else None, "via_gateway": via_gateway,
-            "content_len": len(content)}
+            "content_len": len(content), "file_name": file_name, "explicit_path": explicit_path}
     try:
         if via_gateway:
             from ..harness import new_gateway
@@ -225,6 +266,8 @@ async def load_file(ctx, workdir: str, name: str, content: bytes, via_gateway: b
                         await gateway.persistence.stop()
                     except BaseException as exc:  # noqa: BLE001  cleanup only; C16 judges stop()
                         ctx.obs("cleanup-stop-raised:" + type(exc).__name__)
+        elif explicit_path:
+            await Persistence({}, os.path.join(workdir, "configured-elsewhere.json")).load(path)
         else:
             await Persistence({}, path).load()
     except PersistenceReadError:
@@ -238,6 +281,9 @@ async def load_file(ctx, workdir: str, name: str, content: bytes, via_gateway: b
         outcome = "loaded"
     ctx.clause("load-exception-class")
     ctx.obs("outcome:" + outcome)
+    ctx.obs("file-name:" + file_name)
+    if path != os.path.join(workdir, "p.json"):
+        os.unlink(path)
     ctx.case(content, nontrivial=outcome != "loaded", sample={"name": name, "outcome": outcome,
                                                               "content": content[:120].decode("utf-8", "replace")})
 
@@ -295,7 +341,8 @@ def run_case(ctx, case: dict) -> None:
     workdir = str(scratch_dir("c14"))
     try:
         if case.get("content_hex") is not None:
-            arun(load_file(ctx, workdir, case["name"], bytes.fromhex(case["content_hex"]), case.get("via_gateway", False)))
+            arun(load_file(ctx, workdir, case["name"], bytes.fromhex(case["content_hex"]), case.get("via_gateway", False),
+                          case.get("file_name", "p.json"), case.get("explicit_path", False)))
         else:
             arun(special_cases(ctx, workdir))
     finally:
@@ -308,7 +355,17 @@ def run(ctx) -> None:
         with Reach(ANCHORS) as reach:
             for index, (name, content) in enumerate(documents(ctx)):
                 if ctx.mine(index):
-                    arun(load_file(ctx, workdir, name, content, via_gateway=(index % 25 == 0)))
+                    # every 3rd document sits under another file name (a loader may choose a format by the name)
+                    file_name = FILE_NAMES[index // 3 % len(FILE_NAMES)] if index % 3 == 0 else "p.json"
+                    arun(load_file(ctx, workdir, name, content, via_gateway=(index % 25 == 0), file_name=file_name,
+                                   explicit_path=(index % 25 == 1)))
+            for index, (name, content) in enumerate(container_documents(ctx)):
+                if ctx.mine(index):
+                    suffix = {"gzip": ".gz", "bz2": ".bz2", "xz": ".xz", "zlib": ".z", "zip": ".zip", "pickle": ".pickle"}[
+                        name.split(":")[0].split("-")[0]]
+                    for file_name in ("p.json", "p.json" + suffix, "p" + suffix):
+                        arun(load_file(ctx, workdir, name, content, via_gateway=(index % 10 == 0), file_name=file_name))
+                        ctx.clause("container-content")
             if ctx.shard_index == 0:
                 arun(special_cases(ctx, workdir))
         reach.into(ctx)
